@@ -15,9 +15,9 @@ CLAIMED = {
     "C08": dict(level="model_checking", ref="4/C08", technique="TLA+ trace validation (LinTrace!IllFormed / BadErr) of real Linearizer outputs and errors on TLC-enumerated model families incl. naming corner cases",
                 text="Structural predicate over every compile outcome of corpus K plus family E (duplicate names, $-named user variables, infinite constants, empty aggregations, unbounded operands); guessed constants are excluded semantically by C01 far-point samples.",
                 note="name order is passed as byte-order ranks computed by the harness; finiteness is read from f64::is_finite by the harness; the names of compiled rows are judged by NameTrace.tla on every program of NameGen.tla (constraints compiling to none / one / two rows under colliding names; rows are mapped to constraints by position); a model with $-named user variables is also compiled with them renamed (same number of variables)"),
-    "C13": dict(level="model_checking", ref="4/C13", technique="TLA+ trace validation (StdFormTrace: two-way point correspondence on a grid of image columns) of real into_standard_form outputs (hook H2) on TLC-enumerated LPs",
+    "C13": dict(level="model_checking", ref="4/C13", technique="TLC model checking of the design machine StdForm.tla (one action per pass of to_standard_form, every small model) + TLA+ trace validation (StdFormTrace) of real into_standard_form outputs (hook H2) on TLC-enumerated LPs, both judged by StdCorr.tla: exact equality of the feasible polyhedra and objectives (Fourier-Motzkin) and two-way point correspondence on a grid",
                 text="TLC enumerates small continuous LPs (LpGen); for each, the real standard form is validated: shape, and for every grid assignment of the image columns feasibility in the standard form is equivalent to feasibility of the mapped-back original point with equal objective after flip and offset.",
-                note="grid points only; hook H2 accessors trusted"),
+                note="exact for numbers that fit 32-bit integer arithmetic (otherwise counted unverifiable); hook H2 accessors trusted"),
     "C14": dict(level="model_checking", ref="4/C14", technique="TLC model checking of Simplex.tla (all admissible pivots; Bland termination) + step-by-step TLA+ trace validation of the real Tableau (hook H3) against it",
                 text="Simplex.tla states the pivot rule nondeterministically and TLC checks its invariants (unit basis, feasibility, equivalence with the initial system, objective bookkeeping, optimality at Finish, monotonicity) for all 2x4 starts; every recorded pivot of the real Tableau must be a step of that machine and its float tableau must match the exact successor.",
                 note="integer start data; float comparison at 3e-4; termination claimed for solve/solve_step_by_step"),
@@ -56,7 +56,7 @@ CLAIMED = {
                 note="hangs are observable only as the watchdog limit (12 s per stage); memory safety is out of scope; inputs are sampled; widths stay where the dense standard form is a few million entries; the ladders include nests of min / max blocks and of non-range iterators to depth 64, products of sums, the operator matrix at the integer limits, flat chains on a 2 MiB thread, and the builder's sum() over 5000 variables (the child builds that model itself)"),
     "C06": dict(level="model_checking", ref="4/C06", technique="TLA+ reference semantics of iteration/aggregation constructs (Expand.tla: Envs, Unroll) generating program + unrolled twin; TLA+ trace validation (ExpandTrace) of row-for-row equality of the two real compilations",
                 text="Expand.tla defines the meaning of binders (ranges, inclusive ranges, len, arrays, enumerate, nested arrays, graph nodes and edges with weights, dependent bounds), indexed names, coefficients from data and sum/min/max/avg blocks, and prints for every program of its families the text with constructs and the text it unrolls; both are compiled by the real front end and linearizer and must be equal row for row.",
-                note="data is fixed in the specification; the families (one, enum, graph, prod, logic, sets, alias - the second names of the built-ins -, mixed, scope) are enumerated completely, three-row mixes are simulated; Models are also compared before linearization on sample assignments; the scoping rule (no re-binding of an enclosing name) is part of the specification"),
+                note="data is fixed in the specification; the families (one, enum, graph, prod, logic, sets, alias - the second names of the built-ins -, compose - iterable functions applied to each other's results -, mixed, scope) are enumerated completely, three-row mixes are simulated; Models are also compared before linearization on sample assignments; the scoping rule (no re-binding of an enclosing name) is part of the specification"),
     "C19": dict(level="model_checking", ref="4/C19", technique="TLA+ trace validation (TypeTrace: classification of transform failures into type-class and data-dependent from the error's own structure) of type_check followed by transform on the complete (position x filler) family of TypeGen.tla",
                 text="TypeGen.tla enumerates every pair of a program position (operand, index, bound, iteration source, function argument, array index, aggregation body, destructuring pattern, declaration bound, logic operand, let body) and a filler of a chosen type; the real type checker and transformer run on each; TypeTrace.tla accepts an event iff acceptance implies that transform succeeds or fails with a data-dependent error.",
                 note="soundness only; five classes of genuine type-checker holes are listed as known findings"),
